@@ -49,13 +49,12 @@ Theorem C36_telab_sound : forall (p : prog) (t : rty) (x : rir),
 Proof. exact telab_sound. Qed.
 Print Assumptions C36_telab_sound.
 
-(** Without the guard the statement is FALSE on the code as it is: three programs the front end accepts whose
-    MatrixAnnotateRowsTable / TableUnion the engine's TypeCheck rejects (replayed on the real front end by the oracle:
+(** Without the guard the statement is FALSE on the code as it is: two programs the front end accepts whose
+    MatrixAnnotateRowsTable the engine's TypeCheck rejects (replayed on the real front end by the oracle:
     corpus/C36/t-matrix-interval-compound-key.json, t-matrix-interval-row-key-type.json). *)
 Theorem C36_table_type_agreement_refuted :
   (exists t x, telab ex_refuted_compound_key = Some (t, x) /\ strict_type x = None) /\
-  (exists t x, telab ex_refuted_row_key_type = Some (t, x) /\ strict_type x = None) /\
-  (exists t x, telab ex_refuted_union_order = Some (t, x) /\ strict_type x = None).
+  (exists t x, telab ex_refuted_row_key_type = Some (t, x) /\ strict_type x = None).
 Proof. exact table_type_agreement_refuted. Qed.
 Print Assumptions C36_table_type_agreement_refuted.
 
